@@ -448,7 +448,11 @@ static void prodcons_check_bounded() {
   double n = 0, sx = 0, sy = 0, sxx = 0, sxy = 0;
   for (size_t i = R / 2; i < R; i++) { double x = (double)i, y = (double)g_pc_areas[i]; n++; sx += x; sy += y; sxx += x * x; sxy += x * y; }
   double slope = (n * sxy - sx * sy) / (n * sxx - sx * sx + 1e-9);
-  if (h2 > 2 * q1 + 16 && slope > 0.05)
+  // what at most `live` outstanding blocks of the three size classes can occupy (each class in pages of its own), twice over plus slack: growth below that is the
+  // working set filling up (the number of outstanding blocks is random per round and approaches the limit only later in long runs), not a blow-up
+  const size_t L = (size_t)C.live;
+  const size_t room = 2 * ((L * 3072 + 65535) / 65536 + (L * 512 + 65535) / 65536 + (L * 64 + 65535) / 65536 + 3) + 32;
+  if (h2 > 2 * q1 + 16 && slope > 0.05 && h2 > room)
     vf_trip("blow-up", "C08", "producer/consumer with <= %d live blocks: areas held by the owner grew from <= %zu (first quarter) to %zu (second half), slope %.3f areas/round over %zu rounds", C.live, q1, h2, slope, R);
 }
 
